@@ -1,1 +1,178 @@
-//! (stub)
+//! Async adversaries: `AsyncRead`/`AsyncSeek` source and `AsyncWrite` sink driven by a poll script
+//! (`Pending` with self-wake, partial transfers).
+
+use serde::{Deserialize, Serialize};
+use std::io::{self, SeekFrom};
+use std::pin::Pin;
+use std::sync::{Arc, Mutex};
+use std::task::{Context, Poll};
+use tokio::io::{AsyncRead, AsyncSeek, AsyncWrite, ReadBuf};
+
+#[derive(Clone, Debug, Default, Serialize, Deserialize, PartialEq)]
+pub struct PollScript {
+    /// per poll (cycled): 0 = return Pending (and wake), n>0 = transfer at most n bytes.
+    /// Empty = transfer everything at once. Must contain a non-zero entry.
+    pub steps: Vec<u32>,
+}
+
+impl PollScript {
+    pub fn plain() -> Self {
+        Self::default()
+    }
+    fn normalised(&self) -> Vec<u32> {
+        if self.steps.iter().any(|s| *s > 0) { self.steps.clone() } else { Vec::new() }
+    }
+}
+
+#[derive(Clone, Debug, Default)]
+pub struct PollStats {
+    pub polls: u64,
+    pub pendings: u64,
+    pub partials: u64,
+}
+
+pub struct AdvAsyncRead {
+    data: Arc<Vec<u8>>,
+    pos: usize,
+    steps: Vec<u32>,
+    i: usize,
+    pub stats: Arc<Mutex<PollStats>>,
+    seek_target: Option<u64>,
+}
+
+impl AdvAsyncRead {
+    pub fn new(data: Arc<Vec<u8>>, script: &PollScript) -> Self {
+        AdvAsyncRead { data, pos: 0, steps: script.normalised(), i: 0, stats: Arc::new(Mutex::new(PollStats::default())), seek_target: None }
+    }
+    fn step(&mut self) -> Option<u32> {
+        if self.steps.is_empty() {
+            return Some(u32::MAX);
+        }
+        let s = self.steps[self.i % self.steps.len()];
+        self.i += 1;
+        if s == 0 { None } else { Some(s) }
+    }
+}
+
+impl AsyncRead for AdvAsyncRead {
+    fn poll_read(mut self: Pin<&mut Self>, cx: &mut Context<'_>, buf: &mut ReadBuf<'_>) -> Poll<io::Result<()>> {
+        let stats = self.stats.clone();
+        let mut st = stats.lock().unwrap();
+        st.polls += 1;
+        match self.step() {
+            None => {
+                st.pendings += 1;
+                cx.waker().wake_by_ref();
+                Poll::Pending
+            }
+            Some(n) => {
+                let remaining = self.data.len().saturating_sub(self.pos);
+                let want = buf.remaining().min(remaining);
+                let k = want.min(n as usize);
+                if k < want {
+                    st.partials += 1;
+                }
+                let p = self.pos;
+                buf.put_slice(&self.data[p..p + k]);
+                self.pos += k;
+                Poll::Ready(Ok(()))
+            }
+        }
+    }
+}
+
+impl AsyncSeek for AdvAsyncRead {
+    fn start_seek(mut self: Pin<&mut Self>, position: SeekFrom) -> io::Result<()> {
+        let new = match position {
+            SeekFrom::Start(p) => p as i128,
+            SeekFrom::End(d) => self.data.len() as i128 + d as i128,
+            SeekFrom::Current(d) => self.pos as i128 + d as i128,
+        };
+        if new < 0 {
+            return Err(io::Error::new(io::ErrorKind::InvalidInput, "seek before start"));
+        }
+        self.seek_target = Some(new as u64);
+        Ok(())
+    }
+    fn poll_complete(mut self: Pin<&mut Self>, cx: &mut Context<'_>) -> Poll<io::Result<u64>> {
+        if self.seek_target.is_some() {
+            if self.step().is_none() {
+                self.stats.lock().unwrap().pendings += 1;
+                cx.waker().wake_by_ref();
+                return Poll::Pending;
+            }
+            let t = self.seek_target.take().unwrap();
+            self.pos = (t as usize).min(usize::MAX);
+        }
+        Poll::Ready(Ok(self.pos as u64))
+    }
+}
+
+#[derive(Clone)]
+pub struct AdvAsyncWrite {
+    pub bytes: Arc<Mutex<Vec<u8>>>,
+    steps: Vec<u32>,
+    i: usize,
+    pub stats: Arc<Mutex<PollStats>>,
+    pub shutdown_called: Arc<Mutex<bool>>,
+}
+
+impl AdvAsyncWrite {
+    pub fn new(script: &PollScript) -> Self {
+        AdvAsyncWrite {
+            bytes: Arc::new(Mutex::new(Vec::new())),
+            steps: script.normalised(),
+            i: 0,
+            stats: Arc::new(Mutex::new(PollStats::default())),
+            shutdown_called: Arc::new(Mutex::new(false)),
+        }
+    }
+    fn step(&mut self) -> Option<u32> {
+        if self.steps.is_empty() {
+            return Some(u32::MAX);
+        }
+        let s = self.steps[self.i % self.steps.len()];
+        self.i += 1;
+        if s == 0 { None } else { Some(s) }
+    }
+}
+
+impl AsyncWrite for AdvAsyncWrite {
+    fn poll_write(mut self: Pin<&mut Self>, cx: &mut Context<'_>, buf: &[u8]) -> Poll<io::Result<usize>> {
+        let stats = self.stats.clone();
+        let mut st = stats.lock().unwrap();
+        st.polls += 1;
+        match self.step() {
+            None => {
+                st.pendings += 1;
+                cx.waker().wake_by_ref();
+                Poll::Pending
+            }
+            Some(n) => {
+                let k = buf.len().min((n as usize).max(1));
+                if k < buf.len() {
+                    st.partials += 1;
+                }
+                self.bytes.lock().unwrap().extend_from_slice(&buf[..k]);
+                Poll::Ready(Ok(k))
+            }
+        }
+    }
+    fn poll_flush(mut self: Pin<&mut Self>, cx: &mut Context<'_>) -> Poll<io::Result<()>> {
+        if self.step().is_none() {
+            self.stats.lock().unwrap().pendings += 1;
+            cx.waker().wake_by_ref();
+            return Poll::Pending;
+        }
+        Poll::Ready(Ok(()))
+    }
+    fn poll_shutdown(mut self: Pin<&mut Self>, cx: &mut Context<'_>) -> Poll<io::Result<()>> {
+        if self.step().is_none() {
+            self.stats.lock().unwrap().pendings += 1;
+            cx.waker().wake_by_ref();
+            return Poll::Pending;
+        }
+        *self.shutdown_called.lock().unwrap() = true;
+        Poll::Ready(Ok(()))
+    }
+}
